@@ -67,4 +67,12 @@ CHECKS = {
         "design_ref": "DESIGN.md section 3, C20",
         "note": "Rewrites are stamped by the harness (mtime advanced by 1 s, or restored while the size differs); a rewrite preserving size, mtime, ctime and inode is not distinguishable by file metadata and is not generated.",
     },
+    "C14": {
+        "technique": "model-based property testing of generated operation sequences on the charge container against an exact rational-arithmetic accumulator; outside-area cases executed in a child process with numba bounds checking (crash = violation)",
+        "text": "Generated interleavings of array additions, cluster additions (positions from interior/border/+-1ulp/edge/negative/beyond/far classes, pixel sizes incl. 0.1, 0.3, 1/3), "
+                "reads, removals and resets are applied to detector.charge and to an exact per-pixel accumulator; the reported array must equal the accumulator after every step, "
+                "outside clusters must be credited nowhere and must not crash or corrupt memory. Exploration.",
+        "design_ref": "DESIGN.md section 3, C14",
+        "note": "Child processes run with NUMBA_BOUNDSCHECK=1 (sanitizer-style). Only non-negative charge is added.",
+    },
 }
